@@ -6,6 +6,9 @@ package consistenthash
 // error only when the ring is empty) and C14 (number of virtual nodes per endpoint).
 //
 //@ pred ringKeys(c) = forall j {c.sortedKeys[j]} :: (0 <= j && j < len(c.sortedKeys)) ==> haskey(c.hashRing, c.sortedKeys[j])
+// Every point of the ring belongs to a current member: its endpoint's host is a key of the member map (C13:
+// Select hands out only endpoints of the current set; endpoints are identified by host).
+//@ pred ringMembers(c) = forall k {c.hashRing[k]} :: haskey(c.hashRing, k) ==> haskey(c.mapValues, c.hashRing[k].Host)
 //@ pred chInv(c) = c != nil && c.mapValues != nil && c.hashRing != nil && c.hash != nil
 //
 //@ func (hash).Hash
@@ -74,6 +77,9 @@ package consistenthash
 //@   loop 1 invariant chInv(c) && (hdr(c.sortedKeys) == old(hdr(c.sortedKeys)) || (objof(c.sortedKeys) == old(objof(c.sortedKeys)) && old(cap(c.sortedKeys)) > 0) || fresh(c.sortedKeys)) && (cap(c.sortedKeys) == 0 || allocated(c.sortedKeys))
 //@   loop 0 invariant objof(c.sortedKeys) == objof(atentry(0, c.sortedKeys)) || loopfresh(0, c.sortedKeys)
 //@   loop 1 invariant objof(c.sortedKeys) == objof(atentry(1, c.sortedKeys)) || loopfresh(1, c.sortedKeys)
+//@   ensures [C13] old(ringMembers(c)) ==> ringMembers(c)
+//@   loop 0 invariant [C13] old(ringMembers(c)) ==> (forall k {c.hashRing[k]} :: haskey(c.hashRing, k) ==> (haskey(c.mapValues, c.hashRing[k].Host) || c.hashRing[k].Host == ep.Host))
+//@   loop 1 invariant [C13] old(ringMembers(c)) ==> (forall k {c.hashRing[k]} :: haskey(c.hashRing, k) ==> (haskey(c.mapValues, c.hashRing[k].Host) || c.hashRing[k].Host == ep.Host))
 //@   loop 0 modifies c.sortedKeys, elems(c.sortedKeys), mapcells(c.hashRing)
 //@   loop 1 modifies c.sortedKeys, elems(c.sortedKeys), mapcells(c.hashRing)
 //@   safety [C13]
@@ -83,6 +89,7 @@ package consistenthash
 //@   modifies c.sortedKeys, elems(c.sortedKeys), mapcells(c.hashRing), mapcells(c.mapValues)
 //@   allocates
 //@   ensures [C13] chInv(c)
+//@   ensures [C13] old(ringMembers(c)) ==> ringMembers(c)
 //@   safety [C13]
 //
 //@ func (*ConsistentHash).reBuildHashRingLocked
@@ -101,10 +108,12 @@ package consistenthash
 //@   modifies c.sortedKeys, mapcells(c.hashRing), mapcells(c.mapValues)
 //@   allocates
 //@   ensures [C13] chInv(c)
+//@   ensures [C13] result == nil ==> (forall k {c.hashRing[k]} :: haskey(c.hashRing, k) ==> c.hashRing[k].Host != ep.Host)
+//@   ensures [C13] (old(ringMembers(c)) && result == nil) ==> ringMembers(c)
 //@   loop 0 invariant chInv(c)
-//@   loop 1 invariant chInv(c)
+//@   loop 0 invariant [C13] forall k {c.hashRing[k]} :: haskey(c.hashRing, k) ==> (old(haskey(c.hashRing, k)) && c.hashRing[k] == old(c.hashRing[k]))
+//@   loop 0 invariant [C13] forall k {visited(0, k)} {c.hashRing[k]} :: (visited(0, k) && haskey(c.hashRing, k)) ==> c.hashRing[k].Host != ep.Host
 //@   loop 0 modifies mapcells(c.hashRing)
-//@   loop 1 modifies mapcells(c.hashRing)
 //@   safety [C13]
 //
 //@ func (*ConsistentHash).Refresh
@@ -112,6 +121,8 @@ package consistenthash
 //@   modifies c.mapValues, c.hashRing, c.sortedKeys
 //@   allocates
 //@   ensures [C13] chInv(c) && (objof(c.sortedKeys) == 0 || fresh(c.sortedKeys))
+//@   ensures [C13] ringMembers(c)
+//@   loop 0 invariant [C13] ringMembers(c)
 //@   loop 0 invariant chInv(c) && fresh(c.mapValues) && fresh(c.hashRing) && (objof(c.sortedKeys) == 0 || loopfresh(0, c.sortedKeys)) && allocated(c.sortedKeys)
 //@   loop 0 modifies c.sortedKeys, mapcells(c.hashRing), mapcells(c.mapValues)
 //@   safety [C13]
@@ -119,4 +130,5 @@ package consistenthash
 //@ func New
 //@   allocates
 //@   ensures [C13] chInv(result) && fresh(result) && len(result.sortedKeys) == 0 && result.enableWeight == enableWeight
+//@   ensures [C13] ringMembers(result)
 //@   safety [C13]
